@@ -214,7 +214,7 @@ def tlc(module, cfg, *, spec_dir=None, workers=None, simulate=None, depth=None, 
         r.depth = int(m.group(1))
     if rc == 124:
         r.error = "TLC timeout after %ss" % timeout
-    m = re.search(r"Error: Invariant (\S+) is violated", out)
+    m = re.search(r"Error: Invariant (\S+) is violated", out) or re.search(r"Error: The invariant of (\S+) is equal to FALSE", out)
     if m:
         r.violated = m.group(1)
     elif re.search(r"Error: Action property (\S+)", out):
